@@ -75,6 +75,9 @@ ProxyPassive(order) ==
   [handler |-> "proxy", upstreams |-> << Up(<<"10.0.0.3:443">>) >>,
    health_checks |-> [active |-> [timeout |-> 2 * S], passive |-> [max_fails |-> 2]],
    load_balancing |-> [selection |-> [policy |-> "random_choose", choose |-> 2]], _order |-> order]
+\* random_choose without a count (documented default: 2)
+ProxyChooseDefault == [handler |-> "proxy", upstreams |-> << Up(<<"10.0.0.4:443">>), Up(<<"10.0.0.5:443">>) >>,
+                       load_balancing |-> [selection |-> [policy |-> "random_choose"]]]
 PP == [handler |-> "proxy_protocol", allow |-> <<"10.0.0.0/8", "127.0.0.1/32">>, timeout |-> 2 * S]
 TLSH == [handler |-> "tls"]
 \* connection policies: "protocols <min> [<max>]", alpn, ciphers, curves, default_sni
@@ -90,7 +93,7 @@ Tee == [handler |-> "tee", branch |-> << Echo >>]
 SubRoute(t) == [handler |-> "subroute",
                 routes |-> << [match |-> << [ssh |-> "EMPTY"] >>, handle |-> << ProxySimple >>], [handle |-> << Echo >>] >>] @@
                (IF t THEN [matching_timeout |-> 2 * S] ELSE [handler |-> "subroute"])
-Terminal == { Echo, ProxySimple, ProxyFull("active_first"), ProxyFull("passive_first"), ProxyFullU("active_first", "mixed"), ProxyFullU("passive_first", "twodial"), ProxyPassive("passive_first"), ProxyPassive("active_first"),
+Terminal == { Echo, ProxySimple, ProxyFull("active_first"), ProxyFull("passive_first"), ProxyFullU("active_first", "mixed"), ProxyFullU("passive_first", "twodial"), ProxyPassive("passive_first"), ProxyPassive("active_first"), ProxyChooseDefault,
               Socks5, SubRoute(FALSE), SubRoute(TRUE) }
 Prefixes == { <<>>, <<PP>>, <<TLSH>>, <<TLSHP>>, <<Throttle>>, <<Tee>>, <<PP, TLSH>> }
 HandlerLists == { p \o <<t>> : p \in Prefixes, t \in Terminal }
